@@ -616,6 +616,22 @@ try:
 except Exception as e:
     out.append("fission: " + type(e).__name__)
 out.append(str(extract_subproc(top, top.find_loop("i"), "sub")[0]))
+
+@proc
+def same(x: f32[64]):
+    for i in seq(0, 8):
+        for j in seq(0, 8):
+            x[i + j] = 1.0
+
+# two distinct iterators that print alike and carry the same coefficient; between their creation the symbol
+# counter is (optionally) pushed over the next power of ten by unrelated symbols
+q = divide_loop(same, "i", 4, ["i", "ii"], perfect=True)
+if os.environ.get("SAMENAME_PAD") == "1":
+    c = Sym("probe")._id
+    for _ in range(10 ** len(str(c)) - c):
+        Sym("pad")
+q = divide_loop(q, "j", 4, ["i", "jj"], perfect=True)
+out.append(str(simplify(q)))
 sys.stdout.write("\\n=====\\n".join(out))
 """
 import tempfile, shutil, atexit
@@ -624,15 +640,15 @@ atexit.register(shutil.rmtree, _d, True)
 _child = os.path.join(_d, "session.py")
 open(_child, "w").write(CHILD)
 runs = []
-for seed, off in (("0", "0"), ("1", "0"), ("7", "13"), ("4242", "1000")):
+for seed, off, pad in (("0", "0", "0"), ("1", "0", "0"), ("7", "13", "0"), ("4242", "1000", "0"), ("0", "0", "1")):
     r = subprocess.run([sys.executable, _child], capture_output=True, text=True,
-                       env=dict(os.environ, PYTHONHASHSEED=seed, SYM_OFFSET=off, VERIF_REPO=REPO,
+                       env=dict(os.environ, PYTHONHASHSEED=seed, SYM_OFFSET=off, SAMENAME_PAD=pad, VERIF_REPO=REPO,
                                 PYTHONDONTWRITEBYTECODE="1"))
     if r.returncode != 0:
         print("scenario failed to run:", r.stderr[-800:])
         print("verdict    : not-reproduced")
         sys.exit(0)
-    runs.append(((seed, off), r.stdout))
+    runs.append(((seed, off, pad), r.stdout))
 bad = False
 for (k, o) in runs[1:]:
     if o != runs[0][1]:
